@@ -19,7 +19,8 @@ RULE = ('cases: each of the 12 functions encoded through AnnexJCodec.indication 
         'through AnnexJCodec.confirmation, plus mutations of it (type octet, function octet, length field, truncation, extension, '
         'random octet); every function code 0..255 x several bodies with a consistent header; all 1-octet strings, grids of '
         '2..4-octet strings; random strings; wrong length fields related to the datagram length (L-4, L+4, L-10k, byte swap, '
-        'hi << (8+lo) = L) on representative frames of every function; tables naming one station several times under different masks / TTLs; histories of 2..6 '
+        'hi << (8+lo) = L) on representative frames of every function; valid short frames of every function padded with zeros / 0xFF / random fill; '
+        'one message object (built or decoded) encoded 2..3 times with its fields inspected in between; tables naming one station several times under different masks / TTLs; histories of 2..6 '
         'decodes/encodes on one codec (stations recurring with other masks, one NPDU forwarded for several originators, repeated '
         'tables, messages constructed without arguments) whose decoded messages are inspected after the whole history.  non-trivial = an encode of a message with >= 1 parameter octet or a refusal '
         'with a reason, a decode that delivers a message or refuses after reading >= 1 octet; distinct by (operation, input).')
@@ -235,9 +236,61 @@ def run_history(ops):
 
 
 def impl_history(ops):
+    return flatten_results(run_history(ops))
+
+
+def objseqs(rng, tier):
+    """(source, message, actions): one message OBJECT — built from its parameters or delivered by the decoder — is
+    encoded two or three times, its fields inspected in between ('enc' / 'insp').  Every class, in-domain parameters."""
+    big = tier == 'thorough'
+    msgs = []
+    pool = g_pool(rng, 2)
+    for k in KINDS:
+        msgs.append(g_msg(rng, k, True, rng.choice([1, 2, 3])))
+        if k in TABLE_KINDS:
+            msgs += [[k, []], g_rep_table(rng, k, pool, rng.choice([2, 3, 5]))]
+        elif k in NPDU_KINDS:
+            msgs += [g_msg(rng, k, True, 0), g_msg(rng, k, True, rng.choice([8, 50, 300])), g_msg(rng, k, True, 1497)]
+        if big:
+            msgs += [g_msg(rng, k, True) for _ in range(6)]
+    patterns = [['enc', 'enc'], ['enc', 'enc', 'enc'], ['enc', 'insp', 'enc'], ['insp', 'enc', 'insp', 'enc', 'insp']]
     out = []
-    for r in run_history(ops):          # decoded objects are canonicalised only now, after the whole history
-        if r[0] == 'enc':
+    for i, m in enumerate(msgs):
+        for j, src in enumerate(('build', 'decode')):
+            pats = patterns if (big or len(repr(m)) < 400) else [patterns[(i + j) % 4]]
+            for pat in (pats if big else [pats[(i + j) % len(pats)], pats[(i + j + 2) % len(pats)]]):
+                out.append((src, m, pat))
+    return out
+
+
+def run_objseq(src, m, actions):
+    """returns [('dec', obj|None, err, snapshot)]? + one ('enc', canonical octets) / ('insp', canonical fields) per action"""
+    res = []
+    if src == 'decode':
+        try:
+            obj = decode_obj(spec_frame(m))
+            res.append(('dec', obj, None, [obj.bvlciFunction, obj.bvlciLength] + canon_obj(obj)))
+        except Exception as e:
+            return [('dec', None, exc_code(e), None)]
+    else:
+        obj = build_msg(m)
+    for a in actions:
+        if a == 'enc':
+            def f():
+                u, c, d = stack()
+                u.request(obj)
+                assert len(d.got) == 1
+                return d.got[0].pduData
+            res.append(('enc', canon_call(f, list)))
+        else:
+            res.append(('insp', canon_call(lambda: canon_obj(obj), list)[1:]))
+    return res
+
+
+def flatten_results(rs):
+    out = []
+    for r in rs:          # decoded objects are canonicalised only now, after everything ran
+        if r[0] in ('enc', 'insp'):
             c = r[1]
         elif r[1] is None:
             c = [1, r[2]]
@@ -245,6 +298,20 @@ def impl_history(ops):
             c = [0, r[1].bvlciFunction, r[1].bvlciLength] + canon_obj(r[1])
         out += [len(c)] + c
     return out
+
+
+def case_objseq(src, m, actions):
+    exp = flatten_results(run_objseq(src, m, actions))
+    hops = ['(HDec %s)' % nlist(spec_frame(m))] if src == 'decode' else []
+    first = src == 'build'
+    for a in actions:
+        if a == 'enc':
+            hops.append('(HEnc %s %s)' % (coq_constructions(m) if first else '[]', coq_msg(m)))
+            first = False
+        else:
+            hops.append('(HInspect %s)' % coq_msg(m))
+    return Case('objseq', 'canon_history [%s]' % ';'.join(hops), exp, key=('objseq', src, repr(m), repr(actions)),
+                desc={'op': 'objseq', 'source': src, 'msg': jdesc(m), 'actions': actions, 'seq_repr': repr((src, m, actions))})
 
 
 def coq_hop(op):
@@ -670,6 +737,27 @@ def representative_frames(rng):
     return out
 
 
+def short_frames(rng):
+    """valid frames of every function short enough that padding them stays within 18..~110 octets"""
+    pool = g_pool(rng, 2)
+    out = [spec_frame(['result', g_short(rng)]), spec_frame(['result', 0]), spec_frame(['rbdt']), spec_frame(['rfdt']),
+           spec_frame(['regfd', g_short(rng)]), spec_frame(['regfd', 0]), spec_frame(['delfdt', pool[0]]),
+           spec_frame(['delfdt', ['raw', [0] * 6]])]
+    for k in TABLE_KINDS:
+        out += [spec_frame([k, []]), spec_frame(g_rep_table(rng, k, pool, 1)), spec_frame(g_rep_table(rng, k, pool, 2)),
+                spec_frame([k, [[['raw', [0] * 6], 0] if k != 'rfdtack' else [['raw', [0] * 6], 0, 0]]])]
+    for n in (0, 1, 2, 4, 7, 8, 13, 30):
+        out.append(spec_frame(['fwd', pool[1], g_payload(rng, n)]))
+        for k in ('dist', 'ouni', 'obcast'):
+            out.append(spec_frame([k, g_payload(rng, n)]))
+            out.append(spec_frame([k, bytes(n)]))
+    return sorted(set(out), key=lambda b: (b[1], len(b), b))
+
+
+def paddings(rng, k):
+    return [bytes(k), b'\xff' * k, bytes(rng.randrange(256) for _ in range(k)), bytes(k - 1) + b'\x01', b'\x01' + bytes(k - 1)]
+
+
 def structured_fields(L):
     """wrong length-field values with some arithmetic relation to the datagram length L: near misses, header-size and
     entry-size offsets, byte-swapped, off by a power of two, and every (hi, lo) with lo < 16 (shift / precedence slips)"""
@@ -744,6 +832,17 @@ def cases(rng, tier):
         for v in sorted(set(v & 0xFFFF for v in vals if v >= 0)):
             if v != L:
                 out.append(case_dec(bs[:2] + bytes([v >> 8, v & 255]) + bs[4:], 'dec-badlen'))
+    # padded datagrams: a valid short frame followed by fill (zeros, 0xFF, random) with its length field unchanged
+    for bs in short_frames(rng):
+        n = len(bs)
+        ks = {1, 18 - n, 46 - n, 64 - n, rng.randrange(1, 65)}
+        for k in sorted(x for x in ks if 1 <= x <= 64):
+            pads = paddings(rng, k)
+            for pad in ([pads[0], pads[1], pads[2]] if (big or k + n in (18, 46, 64)) else [pads[0], pads[rng.randrange(1, 5)]]):
+                out.append(case_dec(bs + pad, 'dec-padded'))
+    # one object encoded repeatedly / inspected between encodes / decoded then re-encoded twice
+    for src, m, actions in objseqs(rng, tier):
+        out.append(case_objseq(src, m, actions))
     # short strings
     out.append(case_dec(b'', 'dec-short'))
     for a in range(256):
@@ -948,6 +1047,35 @@ def direct(rng, tier, focus=()):
                          want=list(spec_frame(m))[:80])
     samples.append({'direct': 'history', 'ops': [[o[0], jdesc(o[1])] for o in histories(random_copy(rng), tier)[0]]})
 
+    # 1d. encoding does not disturb the message: the same object encoded two or three times gives the same (Annex J)
+    #     frame every time and its parameters read the same before, between and after the encodes; likewise for an
+    #     object delivered by the decoder and then re-encoded
+    for src, m, actions in objseqs(rng, tier):
+        stats['evaluations'] += 1
+        nontriv.add(('objseq', src, repr(m), repr(actions)))
+        want_frame, want_fields = [0] + list(spec_frame(m)), spec_params(m)
+        rs = run_objseq(src, m, actions)
+        info = dict(source=src, msg=jdesc(m), actions=actions, seq_repr=repr((src, m, actions)))
+        if rs and rs[0][0] == 'dec':
+            r = rs.pop(0)
+            if r[1] is None:
+                fail('roundtrip-refused', octets=spec_frame(m).hex(), **info)
+                continue
+            later = canon_obj(r[1])
+            if later != want_fields:
+                fail('encode-changed-decoded-message', after_encodes=later[:80], want=want_fields[:80], **info)
+        n_enc = 0
+        for a, r in zip(actions, rs):
+            if a == 'enc':
+                n_enc += 1
+                if r[1] != want_frame:
+                    fail('repeated-encode-differs' if n_enc > 1 else 'layout', encode_number=n_enc, got=r[1][:80], want=want_frame[:80], **info)
+                    break
+            elif r[1] != want_fields:
+                fail('encode-changed-message' if n_enc else 'constructed-message-differs', after_encodes=n_enc, got=r[1][:80],
+                     want=want_fields[:80], **info)
+                break
+
     # 2. refusals: type octet, length field, datagram length
     uniq = sorted(set(frames), key=lambda b: (len(b), b))
     for i, bs in enumerate(uniq):
@@ -1000,6 +1128,20 @@ def direct(rng, tier, focus=()):
     stats['length_field_sweep'] = ('every 16-bit field value != L on %d representative valid frames (all 12 functions); '
                                    'function codes %s x %d datagram lengths x %s'
                                    % (len(reps), list(grid_fns), len(LEN_GRID), 'every value' if big else 'structured values (~4.4 k each)'))
+
+    # 2c. padded datagrams: every valid short frame of every function followed by 1..64 fill octets (zeros, 0xFF, random,
+    #     zeros with one non-zero octet) with its own length field kept — total sizes 5..~110 incl. 18, 46, 60, 64 — and
+    #     zero-tailed datagrams of every size 5..80 for every function code 0..12 with every declared length 4..L-1
+    for bs in short_frames(rng):
+        for k in range(1, 65):
+            for pad in paddings(rng, k):
+                check_refused(bs + pad, 'padded', declared=len(bs), actual=len(bs) + k, fn=bs[1])
+        nontriv.add(('padded', bs))
+    for fn in range(13):
+        for L in range(5, 81):
+            for dl in range(4, L):
+                body = bytes(rng.randrange(256) for _ in range(dl - 4))
+                check_refused(header(fn, dl) + body + bytes(L - dl), 'padded', declared=dl, actual=L, fn=fn)
 
     # 3. function codes 0..255 with a consistent header
     for fn in range(256):
@@ -1104,6 +1246,14 @@ def replay(payload):
                 f = b['minimal_case'].get('desc')
     print('replay', f)
     if not isinstance(f, dict):
+        return
+    if 'seq_repr' in f:
+        import ast
+        src, m, actions = ast.literal_eval(f['seq_repr'])
+        print('sent / Annex J frame :', spec_frame(m).hex()[:200])
+        print('parameters           :', spec_params(m)[:60])
+        for r in run_objseq(src, m, actions):
+            print('  ', r[0], (r[1][:60] if r[0] != 'dec' else (r[3] or ['refused', r[2]])[:60]))
         return
     if 'ops_repr' in f:
         import ast
